@@ -76,21 +76,49 @@ def env_for(miriflags, target=None):
     return env
 
 
-def miriflags(seed, preempt, extra=(), clockq=0):
+def miriflags(seed, preempt, extra=(), clockq=0, wallstep=None):
     f = [f"-Zmiri-seed={seed}", f"-Zmiri-preemption-rate={preempt}"] + BASE_FLAGS + list(extra)
     if clockq and (SYSROOT or SYSROOTS):
         f.append(f"-Zmiri-env-set=VERIF_CLOCK_QUANTUM_NS={int(clockq)}")  # coarse simulated clock
+    if wallstep and (SYSROOT or SYSROOTS):
+        # the wall clock (SystemTime) is stepped BACK by wallstep[1] seconds at virtual time wallstep[0] ns
+        f.append(f"-Zmiri-env-set=VERIF_WALL_STEP_AT_NS={int(wallstep[0])}")
+        f.append(f"-Zmiri-env-set=VERIF_WALL_STEP_BACK_S={int(wallstep[1])}")
     return f
 
 
 def flags_of(job):
-    return miriflags(job["miri_seed"], job["preempt"], job.get("extra_flags", ()), job.get("clockq", 0))
+    return miriflags(job["miri_seed"], job["preempt"], job.get("extra_flags", ()), job.get("clockq", 0), job.get("wallstep"))
+
+
+def _fresh_target_dirs(sim_dir):
+    """Artefacts compiled against an earlier build of a sysroot are useless (rustc: "can't find crate") but look fresh to
+    cargo, because the sysroot's path has not changed: every target directory remembers the stamp of the sysroot it
+    was filled from and is emptied when that sysroot has been rebuilt."""
+    import shutil
+    pairs = ([(SYSROOT, "target-patched")] if SYSROOT else []) + [(SYSROOTS[t], target_dir(t)) for t in TARGETS if t in SYSROOTS]
+    for sysroot, tdir in pairs:
+        try:
+            stamp = open(os.path.join(sysroot, ".verif-stamp")).read().strip()
+        except OSError:
+            continue
+        d = os.path.join(sim_dir, tdir)
+        mark = os.path.join(d, ".sysroot-stamp")
+        try:
+            have = open(mark).read().strip()
+        except OSError:
+            have = None
+        if have != stamp:
+            shutil.rmtree(d, ignore_errors=True)
+            os.makedirs(d, exist_ok=True)
+            open(mark, "w").write(stamp)
 
 
 def build(sim_dir=SIM_DIR):
     """Rebuild the harness (and volute, from the path dependency's working tree) for the Miri target, in the
     dev profile and in the release profile.  Any failure is a harness error (exit 2)."""
     t0 = time.time()
+    _fresh_target_dirs(sim_dir)
     for prof in ([], ["--release"]):
         p = subprocess.run(["cargo", "+nightly", "miri", "run", "-q", "--offline"] + prof + ["--", "--build-only"],
                            cwd=sim_dir, env=env_for(miriflags(0, 0)), capture_output=True, text=True, timeout=1800)
